@@ -15,18 +15,42 @@ CLAIMED = {
     "C01": ("differential runtime monitoring: CEK reference machine vs native process (stdout bytes, exit status) on generated programs; valgrind memcheck on a sample (thorough)",
             "Held on K generated well-typed programs x argument tuples executed natively; every listed count is measured. Exploration, not proof: only executed programs are judged.",
             "Trusted: the harness' CEK machine (DESIGN 2.1), the generator's own typing, GNU as after a syntax-only NASM->GAS transliteration, gcc, the host CPU.", "6/C01"),
+    "C02": ("differential runtime monitoring: CEK reference machine vs Core abstract machine on the translation output, each program also as its alpha-renamed twin (capture detector); static duplicate-definition check",
+            "Held on K generated programs of the effect-sequenced fragment under colliding and hostile naming policies.",
+            "Trusted: CEK machine, Core machine (DESIGN 2.1, 2.2).", "6/C02"),
+    "C03": ("Core abstract machine run on the program before and after the real focus(): traces compared, argument-frame counter must stay 0 on focused programs, binder-uniqueness monitor on every focused program",
+            "Held on K Core programs (translation outputs with effects in any argument position) x inputs.",
+            "Trusted: Core machine with explicit argument frames (DESIGN 2.2).", "6/C03"),
+    "C04": ("Core machine on the focused program vs AxCut named machine on the real shrink output; lifted-definition scope/arity monitor; cut-shape coverage histogram",
+            "Held on K focused programs x inputs; evidence lists the cut shapes observed.",
+            "Trusted: Core and AxCut machines.", "6/C04"),
+    "C05": ("AxCut named machine vs positional machine (run-time assertions of exact environments) on the real linearize() output, plus ordered-linear type checker over every path",
+            "Held on K non-linear AxCut programs from the pipeline; static check covers unexecuted paths.",
+            "Trusted: AxCut machine (both modes), ordered-linear checker.", "6/C05"),
+    "C07": ("instrumented AArch64 emulator (poison, bounds, alignment, wild jumps, immediate ranges) on printed assembly text vs AxCut positional reference machine",
+            "Held on K executions of emitted AArch64 text.",
+            "Trusted: AxCut machine and the AArch64 subset emulator (unit-tested against the ARM manual; agrees with the x86-64 emulator on every program after the two fixes).", "6/C07"),
+    "C08": ("instrumented RISC-V emulator (64-bit LW/SW, poison, bounds, wild jumps) on the printed pseudo-assembly vs AxCut positional reference machine",
+            "Held on K print-free programs with at most 14 live variables.",
+            "Trusted: AxCut machine and the RISC-V emulator.", "6/C08"),
+    "C12": ("structural monitors (type/scope checkers for Core, uniquified Core, focused Core, AxCut, linear AxCut) on every value the real stages produce; panics caught around every stage and all three code generators",
+            "Held on K accepted programs; capacity assertions are counted, not judged.",
+            "Trusted: the harness' checkers (DESIGN 4).", "6/C12"),
+    "C16": ("round-trip monitor parse(print(parse(t),w,i)) == parse(t) and print idempotence over widths 1..200 x indents 0..8 on generated noisy texts; scc fmt --inplace on a sample",
+            "Held on K parsed programs x N (width, indent) configurations.",
+            "Trusted: the derived span-ignoring equality of the syntax tree.", "6/C16"),
     "C06": ("instrumented x86-64 emulator (poison tracking, bounds, wild-jump detection) on printed assembly text vs AxCut positional reference machine",
             "Held on K executions of emitted x86-64 text; sanitizer events and trace differences are violations.",
             "Trusted: the harness' AxCut machine and x86-64 subset emulator (cross-checked against native execution by C01's chain).", "6/C06"),
     "C09": ("heap-shape and reference-count monitor run at every statement-boundary marker (hook) of emulated executions; bounds sanitizer on every memory access",
             "Held at N statement boundaries of K executions: partition of all blocks below the frontier into reachable/reusable/deferred/waiting and exact counts.",
-            "Trusted: emulator + monitor; x86-64 only until the AArch64/RISC-V emulators are built (level_note updated then).", "6/C09"),
+            "Trusted: emulators (x86-64, AArch64, RISC-V) + monitor; roots are computed with the backend's own position->temporary map.", "6/C09"),
     "C10": ("footprint monitor over consecutive statement-boundary markers of emulated executions (fresh memory only when both free lists are empty; frontier <= peak reachable + c)",
             "Held on K executions / N marker pairs; the unbounded 'space independent of repetitions' is judged only as the bounded statement within the run lengths executed.",
-            "Trusted: emulator + monitor; x86-64 only so far.", "6/C10"),
+            "Trusted: emulators (all three backends) + monitor.", "6/C10"),
     "C13": ("ABI monitor in the emulator's external-call model: alignment at calls, invalidation of all caller-saved state, callee-saved registers / stack pointer / return address at the final return",
             "Held on K executions with N external calls checked.",
-            "Trusted: emulator's model of the System V ABI; x86-64 only so far.", "6/C13"),
+            "Trusted: emulators' models of the System V (x86-64) and AAPCS64 (AArch64) calling conventions; RISC-V has no calls.", "6/C13"),
 }
 
 REASON_NOT_BUILT = "monitor not built yet (DESIGN.md section 13 fallback rule); will be claimed once its engine exists"
